@@ -91,6 +91,34 @@ theorem waits_alloc_zero :
     (AllocSites.scanned.all fun x => x.1 != "async/detail/wait_impl.hpp" || decide (0 < x.2)) = true ∧
     (AllocSites.scanned.all fun x => x.1 != "async/when/when.hpp" || decide (0 < x.2)) = true := by decide
 
+/-! ### T1: co_await of futures and Wait on ranges — the one site of that path is reachable for SharedFutures only -/
+
+/-- the headers on the co_await path (and shared_event.hpp, which wait_impl.hpp uses too) -/
+def coPath : List String :=
+  ["coro/await.hpp", "coro/await_inline.hpp", "coro/await_on.hpp", "coro/await_sticky.hpp", "coro/detail/await_awaiter.hpp",
+   "coro/detail/await_on_awaiter.hpp", "algo/detail/shared_event.hpp", "algo/detail/wait_event.hpp"]
+
+/-- **coawait_single_alloc_site**: Await / AwaitSticky / AwaitOn / operator co_await, their awaiters and events contain
+    exactly ONE allocation site: the constructor of `DynamicSharedEvent` (its vector of per-element callback nodes) — and
+    the translator walked function bodies in every one of these files -/
+theorem coawait_single_alloc_site :
+    (AllocSites.sites.filter fun s => coPath.contains s.file) =
+      [⟨"algo/detail/shared_event.hpp", "DynamicSharedEvent::DynamicSharedEvent<Event>", "vector_ctor", false, false⟩] ∧
+    (coPath.all fun f => AllocSites.scanned.any fun x => x.1 == f && decide (0 < x.2)) = true := by decide
+
+/-- **dynamic_event_selected_by_handle_type**: DynamicSharedEvent is named in exactly four places of the whole tree (the
+    (begin,count) forms of Await, AwaitSticky, AwaitOn and WaitIterator), always as the TRUE branch of a `std::conditional_t`
+    whose condition is a constant defined as "the HANDLE type of the range's elements is SharedHandle".  Future and FutureOn
+    have UniqueHandle: no co_await and no Wait* on plain futures ever constructs the allocating event.  (Seeded C20-4 chose by
+    `IsInstantiationOf<Future, Value>`: FutureOn ranges got the allocating event.) -/
+theorem dynamic_event_selected_by_handle_type :
+    AllocSites.selections.map (fun s => (s.file, s.alias)) =
+      [("async/detail/wait_impl.hpp", "FinalEvent"), ("coro/await_inline.hpp", "Awaiter"), ("coro/await_on.hpp", "Event"),
+       ("coro/await_sticky.hpp", "Awaiter")] ∧
+    (AllocSites.selections.all fun s => s.trueBranchOnly &&
+      (s.cond == "std::is_same_v<typenameValue::Handle,SharedHandle>" ||
+       s.cond == "std::is_same_v<decltype(it->GetHandle()),SharedHandle>")) = true := by decide
+
 /-! ### non-vacuity -/
 
 def cfgEx : Cfg := fun _ => ⟨true, none⟩
@@ -125,5 +153,16 @@ theorem tie_FuncCore_ctor : Extracted.Kernels.FuncCore_ctor = Skeletons.FuncCore
 theorem tie_Core_ctor : Extracted.Kernels.Core_ctor = Skeletons.Core_ctor := rfl
 theorem tie_WaitCore : Extracted.Kernels.WaitCore = Skeletons.WaitCore := rfl
 theorem tie_WaitRange : Extracted.Kernels.WaitRange = Skeletons.WaitRange := rfl
+-- every header on the co_await / Wait path, whole text (comments and white space dropped)
+theorem tie_coro_await_hpp : Extracted.Kernels.CoSrc_await_hpp = Skeletons.CoSrc_await_hpp := rfl
+theorem tie_coro_await_inline_hpp : Extracted.Kernels.CoSrc_await_inline_hpp = Skeletons.CoSrc_await_inline_hpp := rfl
+theorem tie_coro_await_on_hpp : Extracted.Kernels.CoSrc_await_on_hpp = Skeletons.CoSrc_await_on_hpp := rfl
+theorem tie_coro_await_sticky_hpp : Extracted.Kernels.CoSrc_await_sticky_hpp = Skeletons.CoSrc_await_sticky_hpp := rfl
+theorem tie_coro_await_awaiter_hpp : Extracted.Kernels.CoSrc_await_awaiter_hpp = Skeletons.CoSrc_await_awaiter_hpp := rfl
+theorem tie_coro_await_on_awaiter_hpp :
+    Extracted.Kernels.CoSrc_await_on_awaiter_hpp = Skeletons.CoSrc_await_on_awaiter_hpp := rfl
+theorem tie_shared_event_hpp : Extracted.Kernels.CoSrc_shared_event_hpp = Skeletons.CoSrc_shared_event_hpp := rfl
+theorem tie_wait_event_hpp : Extracted.Kernels.CoSrc_wait_event_hpp = Skeletons.CoSrc_wait_event_hpp := rfl
+theorem tie_wait_impl_hpp : Extracted.Kernels.CoSrc_wait_impl_hpp = Skeletons.CoSrc_wait_impl_hpp := rfl
 
 end Yaclib.Props.C20.Tie
